@@ -169,6 +169,10 @@ struct Chars {
         } else {
             if (is_signed_int_v<decltype(+std::declval<std::conditional_t<is_native_int_v<Rep>, Rep, int>>())> && is_native_int_v<Rep> && bits_v<Rep> >= 32 && z == zmin<std::conditional_t<is_native_int_v<Rep>, Rep, int>>())
                 cause = "most-negative/";
+            if constexpr (!is_native_int_v<Rep>) {
+                auto r = range_of<Rep>();
+                if (r.first < 0 && z == r.first && r.first == -r.second - 1) cause = "most-negative/";
+            }
         }
         long ow = gb.outside_write();
         if (ow != LONG_MIN) return o.fail(cause + "write-outside-buffer", "byte at offset " + std::to_string(ow) + " relative to first was modified (buffer length " + std::to_string(len) + ")");
@@ -295,5 +299,115 @@ struct Chars {
         }
     }
     static void reg(char const* name) { add_site({std::string(Prop == 13 ? "C13|" : "C14|") + name, run, enum_size(), run_enum}); }
+};
+// The static capacity across a run of digit counts: for every N in [Lo, Lo+Count) and T = wide_integer<N[, unsigned]> or
+// elastic_integer<N[, unsigned]>, the values with the most decimal digits (the extremes, +-10^k at the top, random ones above
+// that) are printed by to_chars into a buffer of to_chars_capacity<T> characters and by to_chars_static; both must succeed
+// with the canonical numeral (C14: the text is compared with GMP's).
+template<int N, int Kind>
+struct cap_type;
+template<int N>
+struct cap_type<N, 0> {
+    using type = cnl::wide_integer<N>;
+};
+template<int N>
+struct cap_type<N, 1> {
+    using type = cnl::wide_integer<N, unsigned>;
+};
+template<int N>
+struct cap_type<N, 2> {
+    using type = cnl::elastic_integer<N>;
+};
+template<int N>
+struct cap_type<N, 3> {
+    using type = cnl::elastic_integer<N, unsigned>;
+};
+template<int Prop, int Lo, int Count, int Kind>
+struct CapSweep {
+    template<int N>
+    static void one(unsigned kind, std::uint64_t r0, std::uint64_t r1, Outcome& o, std::string* d)
+    {
+        using T = typename cap_type<N, Kind>::type;
+        constexpr int capacity = cnl::_impl::to_chars_capacity<T>{}();
+        auto range = range_of<T>();
+        mpz_class top = range.second, bottom = range.first;
+        // largest power of ten inside the range
+        mpz_class p10 = 1;
+        while (p10 * 10 <= top) p10 *= 10;
+        mpz_class z;
+        bool neg = bottom < 0 && (r0 & 1);
+        mpz_class const& lim = neg ? bottom : top;
+        switch (kind % 6) {
+        case 0: z = lim; break;
+        case 1: z = neg ? mpz_class(-p10) : p10; break;
+        case 2: z = (neg ? mpz_class(-p10) : p10) + (neg ? 1 : -1); break;  // one digit fewer
+        case 3: z = lim - (neg ? -1 : 1) * mpz_class(to_mpz(r1 % 1000)); break;
+        case 4: {  // anywhere between 10^k and the extreme
+            mpz_class span = abs(lim) - p10 + 1;
+            mpz_class off = ((mpz_class(to_mpz(r0)) << 64) + to_mpz(r1)) * span >> 128;
+            z = p10 + off;
+            if (neg) z = -z;
+            break;
+        }
+        default: {  // anywhere
+            mpz_class span = abs(lim) + 1;
+            z = ((mpz_class(to_mpz(r0)) << 64) + to_mpz(r1)) * span >> 128;
+            if (neg) z = -z;
+        }
+        }
+        if (z > top) z = top;
+        if (z < bottom) z = bottom;
+        if (d) *d = "N=" + std::to_string(N) + " capacity=" + std::to_string(capacity) + " value=" + zstr(z);
+        o.fp = fpn(z, N, Kind);
+        T value = make_rep<T>(z);
+        std::string expect = z.get_str();
+        std::string cap_text, st_text;
+        bool cap_ok = false;
+        long ow = LONG_MIN;
+        int st_len = 0;
+        bool ok = guard(o, [&] {
+            GuardedBuffer g(capacity);
+            auto r = cnl::to_chars(g.first, g.last, value);
+            ow = g.outside_write();
+            cap_ok = r.ec == std::errc{};
+            if (cap_ok && r.ptr >= g.first && r.ptr <= g.last) cap_text.assign(g.first, r.ptr);
+            auto s = cnl::to_chars_static(value);
+            st_len = int(s.length);
+            st_text.assign(s.chars.data(), std::min<std::size_t>(s.chars.size(), static_cast<std::size_t>(std::max(st_len, 0))));
+        });
+        // the most negative value of a two's complement type is a listed finding of its own (to_chars negates it)
+        std::string const cause = (bottom < 0 && z == bottom && bottom == -top - 1) ? "most-negative/" : "";
+        if (ow != LONG_MIN) return o.fail(cause + "capacity-sweep/write-outside-buffer", "offset " + std::to_string(ow));
+        if (!ok) {
+            o.fclass = cause + "capacity-sweep/" + o.fclass;
+            return;
+        }
+        if (!cap_ok) return o.fail(cause + "capacity-sweep/static-capacity-too-small", "to_chars fails with a buffer of to_chars_capacity = " + std::to_string(capacity) + " for a value of " + std::to_string(expect.size()) + " characters");
+        if (st_len > capacity || st_len <= 0) return o.fail(cause + "capacity-sweep/to_chars_static-length-out-of-range", "length " + std::to_string(st_len) + " capacity " + std::to_string(capacity));
+        if constexpr (Prop == 14) {
+            if (cap_text != expect) return o.fail(cause + "capacity-sweep/integer-text-mismatch", "expected \"" + expect + "\" got \"" + cap_text + "\"");
+            if (st_text != expect) return o.fail(cause + "capacity-sweep/to_chars_static-differs", "expected \"" + expect + "\" got \"" + st_text + "\"");
+        }
+        bool full = int(expect.size()) == capacity;
+        o.pass(full || kind % 6 < 4, full ? "fills-the-capacity" : int(expect.size()) == capacity - 1 ? "one-spare" : "spare");
+    }
+    template<int... I>
+    static void dispatch(int idx, unsigned kind, std::uint64_t r0, std::uint64_t r1, Outcome& o, std::string* d, std::integer_sequence<int, I...>)
+    {
+        (void)((idx == I ? (one<Lo + I>(kind, r0, r1, o, d), true) : false) || ...);
+    }
+    static void run(Words& w, Outcome& o, std::string* d)
+    {
+        int idx = int(w.next() % unsigned(Count));
+        unsigned kind = unsigned(w.next() % 6);
+        std::uint64_t r0 = w.next(), r1 = w.next();
+        dispatch(idx, kind, r0, r1, o, d, std::make_integer_sequence<int, Count>{});
+    }
+    static constexpr std::uint64_t enum_size() { return std::uint64_t(Count) * 4 * 2; }
+    static void run_enum(std::uint64_t i, Outcome& o, std::string* d)
+    {
+        dispatch(int(i / 8), unsigned(i % 4), (i / 4) % 2, 0, o, d, std::make_integer_sequence<int, Count>{});
+    }
+    static void reg(char const* name) { add_site({std::string(Prop == 13 ? "C13|capsweep|" : "C14|capsweep|") + name, run, enum_size(), run_enum}); }
 };
 }  // namespace c13
